@@ -278,11 +278,6 @@ Proof.
 Qed.
 
 (* ---------- what the members say ---------- *)
-Definition is_dirpath (ms : list member) (p : list str) : Prop :=
-  p = [] \/ exists m, In m ms /\ path_prefixb p (name_levels (m_name m)) = true.
-Definition is_entry (ms : list member) (k : nat) (p : list str) : Prop :=
-  exists m, nth_error ms k = Some m /\ is_link m = false /\ entry_path m = Some p.
-
 Lemma is_dirpath_app_l a b p : is_dirpath a p -> is_dirpath (a ++ b) p.
 Proof. intros [->|(m & Hm & Hp)]; [now left|right]. exists m. split; [apply in_or_app; now left|exact Hp]. Qed.
 Lemma is_dirpath_snoc_inv a m p :
